@@ -45,7 +45,12 @@ func init() {
 			if g.R.Chance(0.35) {
 				nf := g.R.Range(1, 3)
 				for i := 0; i < nf; i++ {
-					switch g.R.Intn(5) {
+					switch g.R.Intn(6) {
+					case 5:
+						// a region moves to another server (it stays known to the
+						// connection it used before); later a connection breaks
+						p.Faults = append(p.Faults, &Fault{On: "exec", N: g.R.Range(1, 8), Act: "move", Table: ts.Name, Region: g.R.Intn(8), To: g.R.Intn(p.Layout.Servers)})
+						p.Faults = append(p.Faults, &Fault{On: "exec", N: g.R.Range(6, 20), Act: "reset", Server: g.R.Intn(p.Layout.Servers)})
 					case 4:
 						// retry-later answers that also hit establishment probes: a region-level
 						// condition, the shared connection is healthy
